@@ -13,7 +13,11 @@ def run(tier):
         return chk.finish()
     drvs = vp.build_many([("ptr_driver", ["ptr_driver.cpp"], [], "-O2"),
                           ("ptr_driver_lp16", ["ptr_driver.cpp"], ["-DABI_LP16"], "-O2"),
-                          ("ptr_driver_lp64u", ["ptr_driver.cpp"], ["-DABI_LP64U"], "-O2")])
+                          ("ptr_driver_lp64u", ["ptr_driver.cpp"], ["-DABI_LP64U"], "-O2"),
+                          # backends whose range check compares the OWNERS of the two addresses (three-argument
+                          # impl_is_in_same_sandbox, owner found by walking the live-sandbox list)
+                          ("ptr_driver_exact", ["ptr_driver.cpp"], ["-DVM_EXACT_SAME_SANDBOX"], "-O2"),
+                          ("ptr_driver_exact_last", ["ptr_driver.cpp"], ["-DVM_EXACT_SAME_SANDBOX", "-DSBX_LAST"], "-O2")])
     from concurrent.futures import ThreadPoolExecutor
 
     def one(abi):
@@ -26,8 +30,8 @@ def run(tier):
         for e in evs:
             e["abi"] = abi
         return evs, bd
-    with ThreadPoolExecutor(max_workers=3) as ex:
-        res = list(ex.map(one, ("wasm32", "lp16", "lp64u")))
+    with ThreadPoolExecutor(max_workers=5) as ex:
+        res = list(ex.map(one, ("wasm32", "lp16", "lp64u", "exact", "exact_last")))
     events = [e for evs, _ in res for e in evs]
     bad = [b for _, bd in res for b in bd]
     combos = set()
@@ -40,7 +44,7 @@ def run(tier):
     chk.count(evaluations=len(events), distinct=len(combos), traces=1)
     chk.cov["exhaustive"] = True
     chk.cov["exhaustive_scope"] = "8/16-bit operands exhaustively (run-summarised) for + - += -= [] &[] on 11 pointee kinds " \
-                                  "x 3 bases; 32/64-bit operands at boundary values (accepted-interval ends, type limits, " \
+                                  "x 3 bases, 3 guest ABIs, mask-based and owner-comparing range checks (pointer of the first / last created of three live sandboxes); 32/64-bit operands at boundary values (accepted-interval ends, type limits, " \
                                   "operands whose byte offset crosses 2^16..2^64) and seeded random values; plain, tainted " \
                                   "and tainted_volatile operands; null bases; ++/-- pre/post"
     chk.assumptions += ["flag-abort build; strides are the harness' own statement of the wasm32 sizes",
